@@ -166,6 +166,11 @@ def run_history(ctx):
                 # what an accepted call must add (independent of the model)
                 items = arg if kind == 'extend' else _flat([arg])
                 for v in items:
+                    probe = _flat(v)[0] if isinstance(v, list) and _flat(v) else v
+                    if not any(type(probe) is cls for cls in types.values()):
+                        bad = ('spec', f'call {step} ({kind}) accepted a value of an unsupported type ({type(probe).__name__}) instead of raising TypeError',
+                               'accepted-foreign')
+                        break
                     if isinstance(v, list):
                         t0 = next(k for k, cls in types.items() if type(_flat(v)[0]) is cls)
                         if t0 in ('wg', 'nasu'):
@@ -175,6 +180,8 @@ def run_history(ctx):
                     else:
                         t0 = next(k for k, cls in types.items() if type(v) is cls)
                         expected[t0].append(ids[id(v)])
+                if bad:
+                    break
                 if all_ok and got != expected:
                     bad = ('spec', f'after call {step} the device holds {got}, it was given {expected}', 'holds')
                     break
